@@ -28,7 +28,7 @@ import (
 
 const (
 	gateArrive = 12 * time.Millisecond // how long a started caller is given to reach the callback before it counts as blocked
-	gateStuck  = 3 * time.Second       // a released / unblocked caller must make progress within this time
+	gateStuck  = 20 * time.Second      // a released / unblocked caller must make progress within this time
 )
 
 func digit(i int) byte {
